@@ -11,8 +11,12 @@
 package main
 
 import (
+	"encoding/hex"
+	"encoding/json"
 	"fmt"
 	"net"
+	"os"
+	"path/filepath"
 	"reflect"
 	"runtime"
 	"runtime/debug"
@@ -218,6 +222,72 @@ func gslbErr(err error) int {
 	return 9
 }
 
+// header kinds of the wire format
+var hashHeaders = map[int]*string{}
+
+func init() {
+	for k, v := range map[int]string{1: "", 2: "X-Id", 3: "Cookie:UID", 4: "Cookie:", 5: "Cookie:  "} {
+		v := v
+		hashHeaders[k] = &v
+	}
+}
+
+// loadHashConf writes a cluster conf file with the given optional HashConf fields and runs the REAL loader
+// (cluster_conf.ClusterConfLoad -> ClusterConfCheck -> GslbBasicConfCheck -> HashConfCheck).
+func loadHashConf(sp, strat, hk, stp, st int) (*cluster_conf.HashConf, bool) {
+	hc := map[string]interface{}{}
+	if sp != 0 {
+		hc["HashStrategy"] = strat
+	}
+	if h := hashHeaders[hk]; h != nil {
+		hc["HashHeader"] = *h
+	}
+	if stp != 0 {
+		hc["SessionSticky"] = st != 0
+	}
+	doc := map[string]interface{}{"Version": "v1", "Config": map[string]interface{}{
+		"cluster": map[string]interface{}{"GslbBasic": map[string]interface{}{"HashConf": hc}}}}
+	data, _ := json.Marshal(doc)
+	fn := filepath.Join(os.TempDir(), fmt.Sprintf("verif_c05_%d.json", os.Getpid()))
+	if err := os.WriteFile(fn, data, 0600); err != nil {
+		panic(err)
+	}
+	defer os.Remove(fn)
+	conf, err := cluster_conf.ClusterConfLoad(fn)
+	if err != nil {
+		return nil, false
+	}
+	return (*conf.Config)["cluster"].GslbBasic.HashConf, true
+}
+
+// hashKeyOf mirrors what the request built by the harness offers to BalanceGslb.getHashKey
+func hashKeyOf(hc *cluster_conf.HashConf, key []byte) []byte {
+	byHeader := func() []byte {
+		if hc.HashHeader == nil {
+			return nil
+		}
+		if *hc.HashHeader == "X-Id" {
+			return []byte("v" + hex.EncodeToString(key))
+		}
+		if ck, ok := cluster_conf.GetCookieKey(*hc.HashHeader); ok && ck == "UID" {
+			return []byte("c" + hex.EncodeToString(key))
+		}
+		return nil
+	}
+	switch *hc.HashStrategy {
+	case cluster_conf.ClientIdOnly:
+		return byHeader()
+	case cluster_conf.ClientIdPreferred:
+		if k := byHeader(); k != nil {
+			return k
+		}
+		return key
+	case cluster_conf.RequestURI:
+		return []byte("/u" + hex.EncodeToString(key))
+	}
+	return key
+}
+
 func implGslb(hdr hv.L, ops hv.L) hv.Val {
 	gc := gslb_conf.GslbClusterConf{}
 	cb := cluster_table_conf.ClusterBackend{}
@@ -267,25 +337,38 @@ func implGslb(hdr hv.L, ops hv.L) hv.Val {
 		}
 		return nil
 	}
+	defStrat, defSticky := cluster_conf.ClientIpOnly, false
+	installed := &cluster_conf.HashConf{HashStrategy: &defStrat, SessionSticky: &defSticky} // NewBalanceGslb's default
 	out := hv.L{}
 	for _, opv := range ops {
 		op := hv.AsList(opv)
 		switch hv.AsInt(op[0]) {
+		case 9: // a cluster conf with this HashConf goes through the real loader; installed when accepted
+			hc, ok := loadHashConf(int(hv.AsInt(op[1])), int(hv.AsInt(op[2])), int(hv.AsInt(op[3])), int(hv.AsInt(op[4])), int(hv.AsInt(op[5])))
+			if ok {
+				installed = hc
+			}
+			out = append(out, hv.L{hv.Bool(!ok)})
 		case 6:
 			algo, retry := int(hv.AsInt(op[1])), int(hv.AsInt(op[2]))
 			key := append([]byte{}, hv.AsBytes(op[3])...)
 			if len(key) == 0 {
 				key = []byte{0} // an empty key would make BalanceGslb draw a random one
 			}
-			h := murmur3.Sum64(key)
-			st, hh, sticky, mode := cluster_conf.ClientIpOnly, "", algo == 2, cluster_conf.BalanceModeWrr
+			sticky, mode := *installed.SessionSticky || algo == 2, cluster_conf.BalanceModeWrr
 			if algo == 4 {
 				mode = cluster_conf.BalanceModeWlc
 			}
-			bal.SetGslbBasic(cluster_conf.GslbBasicConf{CrossRetry: &cross, RetryMax: &rmax,
-				HashConf: &cluster_conf.HashConf{HashStrategy: &st, HashHeader: &hh, SessionSticky: &sticky}, BalanceMode: &mode})
-			req := &bfe_basic.Request{HttpRequest: &bfe_http.Request{Header: make(bfe_http.Header), RequestURI: "/"},
-				Stat: &bfe_basic.RequestStat{}}
+			hcUse := &cluster_conf.HashConf{HashStrategy: installed.HashStrategy, HashHeader: installed.HashHeader, SessionSticky: &sticky}
+			bal.SetGslbBasic(cluster_conf.GslbBasicConf{CrossRetry: &cross, RetryMax: &rmax, HashConf: hcUse, BalanceMode: &mode})
+			h := uint64(0)
+			if hk := hashKeyOf(hcUse, key); len(hk) > 0 {
+				h = murmur3.Sum64(hk)
+			}
+			req := &bfe_basic.Request{HttpRequest: &bfe_http.Request{Header: make(bfe_http.Header),
+				RequestURI: "/u" + hex.EncodeToString(key)}, Stat: &bfe_basic.RequestStat{}}
+			req.HttpRequest.Header.Set("X-Id", "v"+hex.EncodeToString(key))
+			req.HttpRequest.Header.Set("Cookie", "UID=c"+hex.EncodeToString(key))
 			req.ClientAddr = &net.TCPAddr{IP: net.IP(key), Port: 1}
 			req.RetryTime = retry
 			flips := hv.AsList(op[4])
@@ -527,10 +610,16 @@ func genGslb(r *hv.Rng) (string, hv.Val) {
 			}
 			ops = append(ops, hv.L{hv.I(6), hv.I([]int{1, 1, 2, 4}[r.Intn(4)]), hv.I(r.Intn(rmax + cross + 2)),
 				hv.B(r.Bytes(r.Range(1, 5))), flips})
-		case c < 16:
+		case c < 15:
 			ops = append(ops, hv.L{hv.I(2), hv.I(r.Intn(30)), hv.Bool(r.Chance(1, 3))})
-		case c < 17:
+		case c < 16:
 			ops = append(ops, hv.L{hv.I(3), hv.I(r.Intn(30)), hv.I(r.Range(-1, 2))})
+		case c < 17: // a new hash conf through the loader: every strategy (also absent / out of range) x header kind x sticky
+			ops = append(ops, hv.L{hv.I(9), hv.Bool(r.Chance(4, 5)), hv.I(r.Range(-1, 4)), hv.I(r.Intn(6)),
+				hv.Bool(r.Bool()), hv.Bool(r.Chance(1, 3))})
+			if class == "gslb" || class == "gslb-flips" {
+				class = "gslb-hashconf"
+			}
 		case c < 21: // Reload; a quarter of them all-zero / non-positive (rejected: weights are overwritten in place)
 			for try := 0; try < 6; try++ {
 				conf := map[int]int{}
